@@ -43,6 +43,23 @@ Theorem C16_methods_versions_disjoint : forall m1 v1 m2 v2,
 Proof. exact subcache_name_injective. Qed.
 Print Assumptions C16_methods_versions_disjoint.
 
+(* F28: a method whose name is defined more than once in the classes of the object goes by its qualified name; one that
+   is not overridden keeps the sub-cache it always had, an overriding method and the one it overrides are apart *)
+Theorem C16_plain_method_keeps_its_subcache : forall cls name v,
+  subcache_name (method_id cls name false) v = subcache_name name v.
+Proof. exact plain_method_keeps_its_name. Qed.
+Print Assumptions C16_plain_method_keeps_its_subcache.
+
+Theorem C16_overriding_methods_apart : forall cls1 cls2 name v,
+  cls1 <> cls2 -> subcache_name (method_id cls1 name true) v <> subcache_name (method_id cls2 name true) v.
+Proof. exact overriding_methods_apart. Qed.
+Print Assumptions C16_overriding_methods_apart.
+
+Theorem C16_overridden_apart_from_plain : forall cls name other,
+  ~ In "."%char other -> subcache_name (method_id cls name true) None <> subcache_name (method_id cls other false) None.
+Proof. exact overridden_apart_from_plain. Qed.
+Print Assumptions C16_overridden_apart_from_plain.
+
 (* control keywords *)
 Theorem C16_only_cache_only_looks_up : forall body sig ignore st c,
   c_only c = true ->
